@@ -136,4 +136,15 @@ CLAIMS = {
                 "the discouraged global set_merge.",
         "technique": "Lean 4 theorems over decision-logic model + differential correspondence",
     },
+    "C18": {
+        "text": "C18_assign (clusters partitioning 0..n-1 => the assignment vector gives every fingerprint the 1-based rank of its cluster), "
+                "C18_refuse / C18_refuse_index / C18_no_unlabeled (refused rather than returned with unlabeled entries), C18_order (size-sorted, "
+                "largest first, stable), C18_labels (on every reachable state the wrapper's labels are exactly these ranks, never refused), "
+                "C18_predict (label of a nearest centroid, first on ties), C18_transform, C18_dist_range, C18_centers_aligned. "
+                "Correspondence: real sklearn wrappers vs model on labels_, centres, predict, transform (bit-exact), dump_assignments.",
+        "note": TB + "scikit-learn's pairwise_distances (boolean Jaccard = one float64 division, 0 for two empty rows) and "
+                "pairwise_distances_argmin (first minimum) are external calls whose assumed behaviour is transcribed in jaccardDist / "
+                "argminFirst and tied by correspondence only. Queries without empty rows, as the property states.",
+        "technique": "Lean 4 theorems over executable model + differential correspondence",
+    },
 }
